@@ -49,6 +49,9 @@ def subtree(rng, gate, trace_dir):
         on = {"perf": {"enabled": rng.random() < 0.5, "parallel": {"enabled": True, "t1": True, "t2": False, "agents": rng.random() < 0.5, "max_workers": rng.choice([2, 3, 8])}}}
         off = copy.deepcopy(on)
         off["perf"]["parallel"]["enabled"] = False
+        off["perf"]["parallel"]["t2"] = rng.random() < 0.5  # the T2 fan-out flag too, behind the closed gate
+        if rng.random() < 0.4:
+            del off["perf"]["parallel"]["enabled"]  # the switch left out altogether: the gate is closed by default
         return off, on
     if gate == "gel":
         on = gate_cfg(rng, "gel", True)
@@ -135,6 +138,9 @@ def gen_case(rng, gate):
             if g2 == "reflection":
                 sub.pop("scheduler", None)  # budgets stay at their defaults in the base
             base = merge(base, sub)
+    if gate in ("gel", "quality", "hybrid", "reflection", "scheduler") and rng.random() < 0.3:
+        # the perf metrics gate open in the base: the gated metrics blocks of the canonical records are written
+        base = merge(base, {"perf": {"enabled": True, "metrics": {"report_memory": True}}})
     turns = gen_turns(rng, world, n=(2, 4), agents=("A", "B"), plans=False)
     for t in turns:
         nd = rng.choice([1, 2, 3])
